@@ -48,6 +48,15 @@ func init() {
 			},
 			Extra: func(g *genCtx) string { return c11SharedErrors(g) + c11ErrPrograms(g) },
 		},
+		{
+			// C11: the same two statement lists once more in a file of their own that imports no translated function, so that a
+			// change factgen's function translator cannot follow (a new helper) still leaves the theorem about the LISTS standing
+			// and failing by name (Proofs/C11ErrVal.lean: c11_error_only_request_fields_written)
+			Out:     "AuthErrorProg.lean",
+			NS:      "GenErrProg",
+			Imports: []string{"OidcModel.Model.ErrPar"},
+			Extra:   func(g *genCtx) string { return c11ErrPrograms(g) },
+		},
 	}...)
 }
 
